@@ -12,7 +12,9 @@ Open Scope N_scope.
 Inductive item :=
 | Ev (e : event)
 | ObsPending (l : list N)       (* PendingTxns() at a quiescent point *)
-| ObsBusy (b : bool).           (* at a quiescent point: is a receipt batch / individual query of check() in progress? *)
+| ObsBusy (b : bool)            (* at a quiescent point: is a receipt batch / individual query of check() in progress? *)
+| ObsProc (h : N) (r : reply)   (* wire level: the batch element of hash h, answered r, is the one the next [Proc] hands over *)
+| ObsOut (w : N) (o : wout).    (* waiter w found o in its channel (logged when it arrives: position in the run) *)
 
 Record case := {
   id : N;
@@ -71,11 +73,68 @@ Record acc := {
   stale : bool; foreign : bool;
   pend_mis : bool;
   stalled : bool;              (* a check that had to run (snapshot taken, waiters in it) issued no query *)
-  busy_mis : bool
+  busy_mis : bool;
+  proc_mis : bool              (* the element announced on the wire is not the one the model processes *)
+}.
+
+(* observation-level bookkeeping of the prefix of the run, independent of the model *)
+Record oacc := {
+  nid : N;                                   (* next waiter identity (allocation order of the run) *)
+  sents : list (N * N);                      (* Sent h n so far, newest first *)
+  regs : list (N * N * N);                   (* (waiter, hash, nonce) of the registrations so far *)
+  nonces : list N;                           (* confirmed nonces the node has reported so far *)
+  curp : option (N * reply);                 (* element announced by ObsProc, consumed by the next Proc *)
+  bans : list (N * reply);                   (* (hash, answer) of every batch reply element received so far *)
+  sans : list (N * reply);                   (* (hash, answer) of every individual query answered so far *)
+  closing : bool;                            (* Close seen *)
+  watch_ok : list (N * bool);                (* WaitForReceipt callers: may this call be refused? *)
+  bad : list string                          (* truthfulness clauses violated by an ObsOut *)
 }.
 
 Definition start : acc := {| st := init; due := []; stale := false; foreign := false; pend_mis := false;
-                             stalled := false; busy_mis := false |}.
+                             stalled := false; busy_mis := false; proc_mis := false |}.
+Definition ostart : oacc := {| nid := 0; sents := []; regs := []; nonces := []; curp := None; bans := []; sans := [];
+                               closing := false; watch_ok := []; bad := [] |}.
+
+Definition reply_eqb (a b : reply) : bool :=
+  match a, b with
+  | RReceipt s, RReceipt s' => s =? s'
+  | RNotFound, RNotFound | RNullOverWire, RNullOverWire | RRpcErr, RRpcErr => true
+  | _, _ => false
+  end.
+Definition is_rcpt (st : N) (r : reply) : bool := match r with RReceipt st' => st' =? st | _ => false end.
+Definition opt_is (p : reply -> bool) (o : option reply) : bool := match o with Some r => p r | None => false end.
+Definition is_notfound (r : reply) : bool := match r with RNotFound => true | _ => false end.
+
+(* What the node has answered FOR HASH h so far, at the wire: elements of the batch replies received
+   (batch part [bs]) and answers to individual queries for h (part [ss], the hash being the one
+   announced by ObsProc). *)
+Definition said_receipt (bs ss : list (N * reply)) (h st : N) : bool :=
+  existsb (fun e => (fst e =? h) && is_rcpt st (snd e)) (bs ++ ss).
+Definition said_any_receipt (bs ss : list (N * reply)) (h : N) : bool :=
+  existsb (fun e => (fst e =? h) && match snd e with RReceipt _ => true | _ => false end) (bs ++ ss).
+(* "no receipt": the sentinel or null in a batch, NotFound to the individual query *)
+Definition said_none (bs ss : list (N * reply)) (h : N) : bool :=
+  existsb (fun e => (fst e =? h) && no_receipt (snd e)) bs || existsb (fun e => (fst e =? h) && is_notfound (snd e)) ss.
+
+Fixpoint tx_of (w : N) (ws : list (N * N * N)) : option (N * N) :=
+  match ws with
+  | [] => None
+  | (w', h, n) :: r => if w' =? w then Some (h, n) else tx_of w r
+  end.
+
+(* one observed outcome against the prefix of the run before it *)
+Definition out_ok (a : oacc) (w : N) (o : wout) : option string :=
+  match tx_of w (regs a) with
+  | None => None
+  | Some (h, n) =>
+      match o with
+      | OReceipt h' st => if (h' =? h) && said_receipt (bans a) (sans a) h st then None else Some "false-receipt"%string
+      | OCancelled =>
+          if existsb (fun c => n <? c) (nonces a) && said_none (bans a) (sans a) h then None else Some "false-cancel"%string
+      | OClosed => if closing a then None else Some "closed-before-close"%string
+      end
+  end.
 
 Definition waiters_at (s : mon) (n h : N) : list N := map waiter_of (filter (key_is n h) (wait s)).
 
@@ -105,14 +164,14 @@ Definition step_item (outs : list (N * list wout)) (a : acc) (it : item) : acc :
         | _, _ => []
         end in
       {| st := step current s e; due := due a ++ d; stale := stale a; foreign := foreign a; pend_mis := pend_mis a;
-         stalled := stalled a; busy_mis := busy_mis a |}
+         stalled := stalled a; busy_mis := busy_mis a; proc_mis := proc_mis a |}
   | ObsPending l =>
       let s := st a in
       {| st := s; due := due a;
          stale := stale a || existsb (told outs s) l;
          foreign := foreign a || negb (subsetN l (sent s));
          pend_mis := pend_mis a || negb (same_set l (pending_hashes s));
-         stalled := stalled a; busy_mis := busy_mis a |}
+         stalled := stalled a; busy_mis := busy_mis a; proc_mis := proc_mis a |}
   | ObsBusy b =>
       (* the checker is inside check() exactly while the model is InFlight (C09_new_block_starts_check,
          C09_snapshot_covers: a handed-over check with waiters below the confirmed nonce asks the node) *)
@@ -121,10 +180,57 @@ Definition step_item (outs : list (N * list wout)) (a : acc) (it : item) : acc :
       {| st := s; due := due a; stale := stale a; foreign := foreign a; pend_mis := pend_mis a;
          stalled := stalled a || (negb b && negb (panicked s) &&
                                   match chk s with InFlight _ (_ :: _) [] => true | _ => false end);
-         busy_mis := busy_mis a || negb (Bool.eqb b inflight) |}
+         busy_mis := busy_mis a || negb (Bool.eqb b inflight); proc_mis := proc_mis a |}
+  | ObsProc h r =>
+      let s := st a in
+      {| st := s; due := due a; stale := stale a; foreign := foreign a; pend_mis := pend_mis a;
+         stalled := stalled a; busy_mis := busy_mis a;
+         proc_mis := proc_mis a || negb (panicked s) &&
+                     negb (match chk s with
+                           | InFlight _ _ ((_, h', r') :: _) => (h' =? h) && reply_eqb r' r
+                           | _ => false
+                           end) |}
+  | ObsOut _ _ => a
   end.
 
 Definition replay (c : case) : acc := fold_left (step_item (outs c)) (items c) start.
+
+Fixpoint lookupN (h : N) (l : list (N * N)) : option N :=
+  match l with [] => None | (k, v) :: r => if k =? h then Some v else lookupN h r end.
+
+Definition oset (a : oacc) nid' sents' regs' nonces' curp' bans' sans' closing' watch_ok' bad' : oacc :=
+  {| nid := nid'; sents := sents'; regs := regs'; nonces := nonces'; curp := curp'; bans := bans'; sans := sans';
+     closing := closing'; watch_ok := watch_ok'; bad := bad' |}.
+
+Definition step_obs (a : oacc) (it : item) : oacc :=
+  match it with
+  | Ev (Sent h n) => oset a (nid a) ((h, n) :: sents a) (regs a) (nonces a) (curp a) (bans a) (sans a) (closing a) (watch_ok a) (bad a)
+  | Ev (InternalWatch h n) | Ev (WatchRaw h n) =>
+      oset a (nid a + 1) (sents a) ((nid a, h, n) :: regs a) (nonces a) (curp a) (bans a) (sans a) (closing a) (watch_ok a) (bad a)
+  | Ev (Watch h) =>
+      (* a refusal is in order only if h was never sent or a receipt for h has been handed over *)
+      let ok := match lookupN h (sents a) with None => true | Some _ => said_any_receipt (bans a) (sans a) h end in
+      let regs' := match lookupN h (sents a) with Some n => (nid a, h, n) :: regs a | None => regs a end in
+      oset a (nid a + 1) (sents a) regs' (nonces a) (curp a) (bans a) (sans a) (closing a) ((nid a, ok) :: watch_ok a) (bad a)
+  | Ev (Poll (Some _) (Some c) _) =>
+      oset a (nid a) (sents a) (regs a) (c :: nonces a) (curp a) (bans a) (sans a) (closing a) (watch_ok a) (bad a)
+  | Ev (BatchReply rs) =>
+      oset a (nid a) (sents a) (regs a) (nonces a) (curp a) (rs ++ bans a) (sans a) (closing a) (watch_ok a) (bad a)
+  | Ev (Proc fb) =>
+      match curp a, fb with
+      | Some (h, _), Some r => oset a (nid a) (sents a) (regs a) (nonces a) None (bans a) ((h, r) :: sans a) (closing a) (watch_ok a) (bad a)
+      | _, _ => oset a (nid a) (sents a) (regs a) (nonces a) None (bans a) (sans a) (closing a) (watch_ok a) (bad a)
+      end
+  | Ev Close => oset a (nid a) (sents a) (regs a) (nonces a) (curp a) (bans a) (sans a) true (watch_ok a) (bad a)
+  | ObsProc h r => oset a (nid a) (sents a) (regs a) (nonces a) (Some (h, r)) (bans a) (sans a) (closing a) (watch_ok a) (bad a)
+  | ObsOut w o =>
+      match out_ok a w o with
+      | Some k => oset a (nid a) (sents a) (regs a) (nonces a) (curp a) (bans a) (sans a) (closing a) (watch_ok a) (bad a ++ [k])
+      | None => a
+      end
+  | _ => a
+  end.
+Definition oreplay (c : case) : oacc := fold_left step_obs (items c) ostart.
 
 (* ---- correspondence: model prediction = observation (projected observables only) --------- *)
 Definition agrees (c : case) : bool :=
@@ -132,7 +238,7 @@ Definition agrees (c : case) : bool :=
   let s := st a in
   if crashed c then panicked s
   else
-    negb (panicked s) && close_ok c && negb (pend_mis a) && negb (busy_mis a) &&
+    negb (panicked s) && close_ok c && negb (pend_mis a) && negb (busy_mis a) && negb (proc_mis a) &&
     forallb (fun e => wouts_eqb (outcomes_of s (fst e)) (snd e)) (outs c) &&
     same_set (refusedw c) (refused s).
 
@@ -142,58 +248,37 @@ Definition mismatches (cs : list case) : list N := map id (filter (fun c => negb
 Definition evs_of (c : case) : list event :=
   flat_map (fun it => match it with Ev e => [e] | _ => [] end) (items c).
 
-Definition node_said (evs : list event) (h : N) (p : reply -> bool) : bool :=
-  existsb (fun e => match e with
-                    | BatchReply rs => existsb (fun hr => (fst hr =? h) && p (snd hr)) rs
-                    | Proc (Some r) => p r
-                    | _ => false
-                    end) evs.
-Definition is_receipt (st : N) (r : reply) : bool := match r with RReceipt st' => st' =? st | _ => false end.
-Definition nonce_passed (evs : list event) (n : N) : bool :=
-  existsb (fun e => match e with Poll (Some _) (Some c) _ => n <? c | _ => false end) evs.
-Definition has_close (evs : list event) : bool := existsb (fun e => match e with Close => true | _ => false end) evs.
-
-(* (hash, nonce) of waiter w according to the registrations of the run *)
-Fixpoint tx_of (w : N) (ws : list (N * N * N)) : option (N * N) :=
-  match ws with
-  | [] => None
-  | (w', h, n) :: r => if w' =? w then Some (h, n) else tx_of w r
-  end.
-
-Definition outcome_ok (evs : list event) (hn : option (N * N)) (o : wout) : option string :=
-  match hn with
-  | None => None       (* refused caller: reported through the correspondence *)
-  | Some (h, n) =>
-      match o with
-      | OReceipt h' st =>
-          if (h' =? h) && node_said evs h (is_receipt st) then None else Some "false-receipt"%string
-      | OCancelled =>
-          if nonce_passed evs n && node_said evs h no_receipt then None else Some "false-cancel"%string
-      | OClosed => if has_close evs then None else Some "closed-before-close"%string
-      end
-  end.
-
 Definition opt_list {A} (o : option A) : list A := match o with Some a => [a] | None => [] end.
+
+Fixpoint lookupB (w : N) (l : list (N * bool)) : option bool :=
+  match l with [] => None | (k, v) :: r => if k =? w then Some v else lookupB w r end.
 
 Definition violation_keys (c : case) : list string :=
   if crashed c then ["panic"%string] else
   let a := replay c in
+  let o := oreplay c in
   let s := st a in
-  let evs := evs_of c in
   (* at most one outcome per waiter *)
   (if existsb (fun e => match snd e with _ :: _ :: _ => true | _ => false end) (outs c)
    then ["two-outcomes"%string] else []) ++
-  (* truthfulness of every observed outcome *)
-  flat_map (fun e => flat_map (fun o => opt_list (outcome_ok evs (tx_of (fst e) (watchers s)) o)) (snd e)) (outs c) ++
-  (* resolution: owed outcomes were delivered; after the final drain nobody is left without one *)
+  (* truthfulness of every observed outcome, against the prefix of the run before it arrived: the answer
+     must be FOR THAT HASH, in an element already handed to the monitor; the confirmed nonce must have
+     passed before; Close must have happened before *)
+  bad o ++
+  (* resolution: owed outcomes were delivered; a check that had to run ran; after the final drain nobody
+     who registered is left without an outcome; nobody is refused while the transaction is unresolved *)
   (if existsb (fun d => match obs_of (fst d) (outs c) with
-                        | Some [o] => negb (wout_eqb o (snd d))
+                        | Some [x] => negb (wout_eqb x (snd d))
                         | Some _ => true
                         | None => false
                         end) (due a)
       || stalled a
       || (wl_exited s &&
-          existsb (fun e => match snd e, tx_of (fst e) (watchers s) with [], Some _ => true | _, _ => false end) (outs c))
+          existsb (fun e => match snd e, tx_of (fst e) (regs o) with
+                            | [], Some _ => negb (memN (fst e) (refusedw c))
+                            | _, _ => false
+                            end) (outs c))
+      || existsb (fun w => match lookupB w (watch_ok o) with Some false => true | _ => false end) (refusedw c)
    then ["unresolved"%string] else []) ++
   (if stale a then ["pending-stale"%string] else []) ++
   (if foreign a then ["pending-foreign"%string] else []).
